@@ -69,6 +69,7 @@ def run_oracle(ctx, cases, pid_keys):
     """evaluate cases on the real code; classify failures against the known findings of this property"""
     known = {f["id"]: f for f in core.findings_by_site(ctx)}
     results = semcheck.pool_map(semcheck.evaluate_case, cases)
+    failures = []
     for case, r in zip(cases, results):
         st = r.get("status")
         if st in ("unparsable", "killed", None):
@@ -86,13 +87,36 @@ def run_oracle(ctx, cases, pid_keys):
                   sample={"program": case["program"][:200], "traits": [t for t, v in case["flags"].items() if v],
                           "result": (r.get("result") or "")[:200], "instances_compared": r.get("compared", 0)})
         if st in ("mismatch", "broken-result"):
-            handle_failure(ctx, case, r, known)
+            failures.append((case, r))
+    # minimisation + classification of the failing cases is independent per case: do it in the pool, too
+    # exact duplicates (same program, traits, instance - e.g. the same hand-written program run twice) are classified once
+    seen, uniq = set(), []
+    for case, r in failures:
+        key = (r.get("program"), json.dumps(r.get("flags"), sort_keys=True), r.get("instance"), str(r.get("inp")), str(r.get("outp")))
+        if key not in seen:
+            seen.add(key)
+            uniq.append((case, r))
+    failures = uniq
+    classified = semcheck.pool_map(_classify, [r for _, r in failures], task_timeout=600) if failures else []
+    for (case, r), c in zip(failures, classified):
+        if not isinstance(c, dict) or "small" not in c:
+            c = _classify(r)   # a killed classification is repeated in the parent: a failure is never dropped
+        apply_classification(ctx, case, c["small"], c["keys"], known)
     return results
 
 
-def handle_failure(ctx, case, r, known):
+def _classify(r):
     small = semcheck.minimise(r)
-    keys = hyp.falsified(small["program"], small["flags"], small)
+    return {"small": small, "keys": sorted(hyp.falsified(small["program"], small["flags"], small))}
+
+
+def handle_failure(ctx, case, r, known):
+    c = _classify(r)
+    apply_classification(ctx, case, c["small"], c["keys"], known)
+
+
+def apply_classification(ctx, case, small, keys, known):
+    keys = set(keys)
     fid = None
     for k, f in known.items():
         if f.get("key") in keys:
